@@ -32,6 +32,7 @@ type ListDoc struct {
 	NextMarker            string      `xml:"NextMarker"`
 	KeyCount              *int64      `xml:"KeyCount"`
 	NextContinuationToken string      `xml:"NextContinuationToken"`
+	EncodingType          string      `xml:"EncodingType"`
 	Contents              []ListEntry `xml:"Contents"`
 	CommonPrefixes        []struct {
 		Prefix string `xml:"Prefix"`
